@@ -6,6 +6,7 @@ import os, sys, json, hashlib
 sys.path.insert(0, os.path.join(os.path.dirname(os.path.abspath(__file__)), "..", "lib"))
 from common import *
 from wholeprog import *
+import wasmsel
 
 PID = "C02"
 COMMON_FEATS = {"cast", "struct", "method", "method-val", "struct-fn", "fixed-array", "dyn-array", "while", "for", "recursion", "eval-order", "eval-order-struct"}
@@ -82,6 +83,13 @@ def main():
         rep.fail("domain:collapsed", "fewer than half of the generated programs are accepted by both back ends (%d/%d): the common domain collapsed" % (nboth, n),
                  {"kind": "broken-obligation", "correspondence": "common fragment of native and wasm"}, no_input=True)
 
+    # ---- instruction selection: regenerated tables + observations on both targets
+    try:
+        sel = wasmsel.check_wasm_selection(rep, PID, tier, stats)
+    except BuildError as e:
+        rep.fail("tie:wasmsel", "instruction-selection tie cannot run", {"kind": "broken-obligation", "detail": str(e)[-2000:]}, no_input=True)
+        sel = stats["selection"] = {"wasm_rows": 0, "wasm_rows_of_proved_shape": 0, "native_rows": 0, "observations_compared": 0, "native_vs_wasm_disagreements": 0, "agree_but_off_specification": 0}
+
     ok, out = lake_build(["FerretVerif.Props.C02"])
     names = theorem_names("C02")
     axioms, discharged = {}, 0
@@ -95,15 +103,19 @@ def main():
         log(out[-3000:])
         rep.fail("proof:C02", "Props/C02.lean no longer builds", {"kind": "broken-obligation", "detail": out[-3000:]}, no_input=True)
     cov = {
-        "explanation": "PARTIAL. Theorems (kernel-checked, %d/%d) cover the layout computation at both pointer sizes (C18) and the width-wrapping of the shared "
-                       "reference semantics; the two emitters themselves are NOT modelled. The agreement claim rests on differential execution: %d catalogue probes and %d random "
+        "explanation": "PARTIAL. Theorems (kernel-checked, %d/%d) cover the layout computation at both pointer sizes (C18), the width-wrapping of the shared "
+                       "reference semantics, and INSTRUCTION SELECTION of both back ends: the IL the native emitter and the stack code the wasm emitter produce for every integer "
+                       "operator x type and every integer cast (2 x %d rows regenerated from the current compiler's output; %d/%d wasm rows of a proved shape) are proved to "
+                       "yield the same canonical temporary for all operand values (backends_agree_on_selection; wasm stack code goes through a symbolic stack evaluation proved "
+                       "sound, toSsa_sound); the models were compared with both executables on %d calls. The rest of the two emitters (control flow, memory, calls, runtimes) is NOT "
+                       "modelled: there the agreement claim rests on differential execution: %d catalogue probes and %d random "
                        "programs accepted by both back ends, native executable vs .wasm under node with the shipped runtime.js, %d lines compared, each also "
-                       "compared with the Lean reference interpreter." % (discharged, len(names), both, nboth, lines),
+                       "compared with the Lean reference interpreter." % (discharged, len(names), sel["wasm_rows"], sel["wasm_rows_of_proved_shape"], sel["wasm_rows"], sel["observations_compared"], both, nboth, lines),
         "obligations": len(names), "discharged": discharged, "theorems": [{"name": nm, "axioms": axioms.get(nm)} for nm in names],
         "evaluations": len(nat) + n, "distinct_nontrivial": nboth,
         "rule": "catalogue probes + seeded type-directed programs over the constructs both back ends support (%s); non-trivial = random programs accepted by both" % sorted(COMMON_FEATS),
-        "samples": [p[0] for p in catalogue.PROBES[:5]], "catalogue": stats["catalogue"], "random": stats["random"],
-        "trusted_base": ["Lean 4 kernel", "node/V8 + runtime/wasm/runtime.js from the current tree", "gcc/as/ld", "Python generator/runner"],
+        "samples": [p[0] for p in catalogue.PROBES[:5]], "catalogue": stats["catalogue"], "random": stats["random"], "selection": sel,
+        "trusted_base": ["Lean 4 kernel", "lib/wasmsel.py (module decoder, function layout by sorted name checked against the export of main and every signature, removal of the one-block dispatcher wrapper)", "lib/qbesel.py", "Model/WasmSem.wasmOp and QbeSem.evalOp as the meaning of the opcodes (validated against both executables on every observation)", "node/V8 + runtime/wasm/runtime.js from the current tree", "gcc/as/ld", "Python generator/runner"],
     }
     write_evidence(PID, "other", cov, assumptions=["programs rejected by either back end (128/256-bit integers, closures, optionals, results on wasm) are outside the property's domain",
                                                    "floats are not generated (the property compares them as numbers)"], violations=len(rep.violations))
